@@ -19,6 +19,7 @@ RULE = ("generated bodies E (C04 grammar with ^/^^ under map/filter/sort_by/pipe
         "distinct_nontrivial = distinct (binding form, uses-parent-under-binding, body text) with the value present for at least one input")
 
 FORMS = ("set", "define", "preset-var", "preset-macro", "position", "position-split", "pipe-parent", "macro-late-var", "recursive-macro", "set-twin",
+         "selected-under-binding", "preset-in-stage",
          "computed-name")
 # terminating self-referential macro bodies (tree and linear recursion) that read the enclosing input or a variable bound on the way down
 RECURSIVE = [
@@ -104,6 +105,40 @@ def gen_unit(rng):
     else:
         inputs = [eg.gen_record(rng) for _ in range(rng.choice((1, 2, 4, 8)))]
     u = {"form": form, "input": "\n".join(jm.dumps(v) for v in inputs).encode(), "pre": [], "pairs": [], "long": len(inputs) > 100}
+    if form == "selected-under-binding":
+        # a later selection reads an earlier one through /name/: a binding around that reference changes nothing
+        X = rng.choice((".n", ".s", ".i", "(size .arr)", ".obj", ".b"))
+        u["pre"] = ["--select", X + "=first"]
+        if rng.random() < 0.4:
+            u["pre"] = ["--split-by=" + rng.choice([".arr", "(push [] .)"])] + u["pre"]
+        cands = [('(set "x" 5 (push [] /first/ :x))', "(push [] /first/ 5)"), ('(define "m" /first/ (push [] @m .i))', "(push [] /first/ .i)"),
+                 ('(set "x" /first/ :x)', "/first/"), ('(set "unused" 1 /first/)', "/first/"), ('(define "unused" 1 (push [] /first/))', "(push [] /first/)"),
+                 ('(set "x" 1 (define "m" (push [] /first/ :x) @m))', "(push [] /first/ 1)")]
+        if rng.random() < 0.5:
+            u["pre"] = ["--set", "@pm=(push [] /first/ 1)", "--set", "pv=7"] + u["pre"]
+            cands += [("@pm", "(push [] /first/ 1)"), ("(push [] /first/ :pv)", "(push [] /first/ 7)")]
+        for a, b in rng.sample(cands, rng.choice((1, 2, 3))):
+            u["pairs"].append((a, b, False))
+        return u
+    if form == "preset-in-stage":
+        # --set bindings hold in every option that takes an expression, not only in --select: the run with the binding is the
+        # run with the value written out
+        which = rng.choice(("split", "split-macro", "filter", "filter-macro", "sort", "group", "sort-macro"))
+        tmpl = {"split": ("pv", '"%s"' % rng.choice(("arr", "objs", "strs")), "--split-by=(get . %s)"),
+                "split-macro": ("@pm", rng.choice((".arr", ".objs", "(push [] . .)")), "--split-by=%s"),
+                "filter": ("pv", rng.choice(("true", "3", '"a"')), "--filter=(= (default .b .i .s) %s)"),
+                "filter-macro": ("@pm", "(number? .n)", "--filter=%s"),
+                "sort": ("pv", '"%s"' % rng.choice(("n", "i", "s")), "--sort-by=(get . %s)"),
+                "sort-macro": ("@pm", rng.choice((".n", "(size .arr)")), "--sort-by=%s DESC"),
+                "group": ("pv", '"%s"' % rng.choice(("s", "u")), "--group-by=(get . %s)")}[which]
+        name, val, stage = tmpl
+        ref = ":pv" if name == "pv" else "@pm"
+        tail = rng.choice(([], ["--select", ".i=i", "--select", ".n=n"], ["--unique"], ["--take", "3"]))
+        if which == "group":
+            tail = [t for t in tail if t not in ("--take", "3")]
+        u["runs"] = [["--set", "%s=%s" % (name, val), stage % ref] + tail, [stage % val] + tail]
+        u["which"] = which
+        return u
     if form == "pipe-parent":
         if rng.random() < 0.4:
             u["pre"] = ["--split-by=" + rng.choice([".objs", "(push [] .)"])]
@@ -268,6 +303,27 @@ def run_unit(ctx, unit):
     st = ctx.stats
     if unit["form"] == "pipe-parent":
         return run_pipe_parent(ctx, unit)
+    if unit["form"] == "preset-in-stage":
+        oa, ob = ctx.drv.run_many([core.Case(a, unit["input"]) for a in unit["runs"]])
+        if oa.result != "ok" or ob.result != "ok":
+            if {oa.result, ob.result} & {"timeout", "abort"}:
+                st.inconc("watchdog")
+            elif oa.result != ob.result and "panic" not in (oa.result, ob.result):
+                st.violation("binding-not-transparent:preset-in-stage:" + unit["which"], "with the --set binding: %s, with the value written out: %s" % (oa.result, ob.result),
+                             unit, {"runs": unit["runs"], "errtext": oa.errtext[:200] + " / " + ob.errtext[:200]})
+            else:
+                st.count("skipped_configuration_error")
+            return
+        st.count("conclusive")
+        st.count("pairs_checked")
+        if oa.stdout != ob.stdout:
+            st.violation("binding-not-transparent:preset-in-stage:" + unit["which"], "a --set binding used in a stage option is not the same as writing its value there",
+                         unit, {"runs": unit["runs"], "with_binding": oa.stdout[:600], "written_out": ob.stdout[:600]})
+            return
+        if ob.stdout.strip():
+            st.see("nontrivial", ("preset-in-stage", unit["which"], unit["runs"][1][0]))
+            st.count("present_pairs")
+        return
     if unit.get("long"):
         st.count("long_runs")
     args = list(unit["pre"])
